@@ -144,8 +144,10 @@ impl<'tcx> Cx<'tcx> {
                 ProjectionElem::Deref => s("deref"),
                 ProjectionElem::Field(f, fty) => {
                     let mut name = String::new();
+                    let mut base = String::new();
                     match pty.ty.kind() {
                         ty::Adt(def, _) => {
+                            base = path_of(tcx, def.did());
                             let v = pty.variant_index.unwrap_or(rustc_abi::FIRST_VARIANT);
                             if def.is_enum() || def.is_struct() || def.is_union() {
                                 if let Some(fd) = def.variant(v).fields.get(f) {
@@ -158,6 +160,7 @@ impl<'tcx> Cx<'tcx> {
                     obj(vec![
                         ("f", n(f.as_usize())),
                         ("name", s(name)),
+                        ("base", s(base)),
                         ("ty", s(ty_str(fty))),
                     ])
                 }
